@@ -16,7 +16,8 @@ from ..sched import run_threads
 ID = 'C20'
 TITLE = 'concurrent builds do not influence each other'
 RULE = ('2-3 threads, each Builder() + add_source(own file, safe=own flag) + build() (+ Config(...)), over generated files with an include, '
-        '!unsafe markers and failing inputs (parse error, missing include, merge error), run under a generated schedule of <=200 '
+        '!unsafe markers, nested includes with !path, a second source with the opposite safe flag, a raw string source with a filename, !eval / !xref '
+        'nodes, a lazily included file, and failing inputs (parse error, missing include, merge error, failing !eval, unfilled !required), run under a generated schedule of <=200 '
         '(thread, quantum) pairs with quanta biased to 1-20 line events inside the awesomeyaml package; non-trivial = >=3 context switches '
         'and threads differing in file and safe flag, or one thread failing; distinct = hash of the case')
 BUDGET = {'quick': (4, 50), 'thorough': (16, 1500)}
@@ -24,7 +25,9 @@ SHRINK_CAP = {'quick': 60, 'thorough': 400}
 ASSUMPTIONS = ['context switches happen only at python line events inside the awesomeyaml package (not inside PyYAML / C code): the granularity the property states',
                'interleavings are sampled; each sampled interleaving is exact and replayable; nothing is claimed for interpreters without a GIL']
 
-BODY_KINDS = ['plain', 'plain', 'include', 'include', 'unsafe', 'parse-error', 'missing-include', 'merge-error']
+BODY_KINDS = ['plain', 'plain', 'include', 'include', 'unsafe', 'parse-error', 'missing-include', 'merge-error',
+              'two-sources', 'nested-include', 'eval', 'eval-error', 'rec', 'required-missing', 'raw-string']
+EVALUABLE = ('plain', 'include', 'unsafe', 'two-sources', 'nested-include', 'eval', 'eval-error', 'rec', 'required-missing', 'raw-string')
 
 
 @st.composite
@@ -66,6 +69,30 @@ def _write_files(root, i, body):
         text = f'---\nwho: {i}\n{items}bad: [1, 2\nworse: }}\n'
     elif kind == 'missing-include':
         text = f'---\nwho: {i}\n{items}gone: !include sub/not_there{i}.yaml\n'
+    elif kind == 'two-sources':
+        # a second file with the opposite safe flag, merged over the first by the same builder
+        with open(os.path.join(d, f'over{i}.yaml'), 'w') as f:
+            f.write(f'---\nwho: {i}\nk0: {{v: {i * 100 + 50}, extra: [{i}]}}\nadded: {i}\n')
+        text = f'---\nwho: -1\n{items}'
+    elif kind == 'nested-include':
+        os.makedirs(os.path.join(d, 'sub', 'deep'))
+        with open(os.path.join(d, 'sub', 'deep', f'leaf{i}.yaml'), 'w') as f:
+            f.write(f'---\nleaf: {i}\n')
+        with open(os.path.join(d, 'sub', f'inc{i}.yaml'), 'w') as f:
+            f.write(f'---\ninner: {i}\ndeeper: !include deep/leaf{i}.yaml\nwhere: !path:parent [x{i}]\n')
+        text = f'---\nwho: {i}\n{items}nested: !include sub/inc{i}.yaml\n'
+    elif kind == 'eval':
+        text = f'---\nwho: {i}\n{items}e: !eval "who * 2 + {i}"\nf: !eval |\n  t = [k0.v, {i}]\n  t\ng: !xref k0.l\n'
+    elif kind == 'eval-error':
+        text = f'---\nwho: {i}\n{items}e: !eval "who + undefined_name_{i}"\n'
+    elif kind == 'rec':
+        with open(os.path.join(d, 'sub', f'lazy{i}.yaml'), 'w') as f:
+            f.write(f'---\nlazy: {i}\nl: [{i}]\n')
+        text = f'---\nwho: {i}\n{items}r: !rec\n  - {os.path.join(d, "sub", f"lazy{i}.yaml")}\n'
+    elif kind == 'required-missing':
+        text = f'---\nwho: {i}\n{items}need{i}: !required\n'
+    elif kind == 'raw-string':
+        text = f'---\nwho: {i}\n{items}'
     else:
         text = f'---\nwho: {i}\nl: [1, 2]\n{items}---\nl: {{7: x}}\n'
     with open(main, 'w') as f:
@@ -73,11 +100,16 @@ def _write_files(root, i, body):
     return main, text
 
 
-def _body(path, safe, evaluate):
+def _body(path, safe, evaluate, kind='plain', text=None):
     def run():
         from awesomeyaml import Builder, Config
         b = Builder()
-        b.add_source(path, safe=safe)
+        if kind == 'raw-string':
+            b.add_source(text, raw_yaml=True, filename=path + '.virtual', safe=safe)
+        else:
+            b.add_source(path, safe=safe)
+        if kind == 'two-sources':
+            b.add_source(os.path.join(os.path.dirname(path), 'over' + os.path.basename(path)[4:]), safe=not safe)
         tree = b.build()
         obs = []
         for p, n in tree.ayns.nodes_with_paths(include_self=True):
@@ -104,7 +136,7 @@ def run_case(case):
         texts = []
         for i, b in enumerate(case['bodies']):
             path, text = _write_files(root, i, b)
-            bodies.append(_body(path, b['safe'], b['evaluate'] and b['kind'] in ('plain', 'include', 'unsafe')))
+            bodies.append(_body(path, b['safe'], b['evaluate'] and b['kind'] in EVALUABLE, b['kind'], text))
             texts.append(f'[thread {i}: {os.path.relpath(path, root)} safe={b["safe"]} kind={b["kind"]}]')
         # sequential reference
         ref = []
